@@ -1,0 +1,118 @@
+//go:build verif
+
+package xmss
+
+// Verification hooks (build tag "verif"). Nothing in this file is compiled
+// into the shipped library. They give a simulator outside the package:
+//   - a seam replacing leaf generation (genLeafWOTS) by a cheap function,
+//   - a snapshot and a deep copy of the unexported traversal state,
+//   - the library's own authentication-path evaluation.
+
+// verifLeafFunc, when non-nil, replaces genLeafWOTS. It receives the leaf
+// output buffer and the leaf indices carried by the L-tree and OTS addresses.
+var verifLeafFunc func(leaf []uint8, lTreeIdx, otsIdx uint32)
+
+// VerifSetLeafFunc installs (or, with nil, removes) the leaf replacement.
+func VerifSetLeafFunc(f func(leaf []uint8, lTreeIdx, otsIdx uint32)) { verifLeafFunc = f }
+
+func verifLeafSeam(leaf []uint8, lTreeAddr, otsAddr *[8]uint32) bool {
+	if verifLeafFunc == nil {
+		return false
+	}
+	verifLeafFunc(leaf, lTreeAddr[4], otsAddr[4])
+	return true
+}
+
+// VerifTreeHash is a copy of one tree-hash instance.
+type VerifTreeHash struct {
+	H          uint32
+	NextIdx    uint32
+	StackUsage uint32
+	Completed  uint8
+	Node       []uint8
+}
+
+// VerifState is a copy of the complete signer state of an XMSS object.
+type VerifState struct {
+	Height       uint8
+	HashFunction HashFunction
+	Seed         []uint8
+	SK           []uint8
+	StackOffset  uint32
+	Stack        []uint8 // whole buffer, including entries above StackOffset
+	StackLevels  []uint8
+	Auth         []uint8
+	Keep         []uint8
+	Retain       []uint8
+	NextLeaf     uint32
+	TreeHash     []VerifTreeHash
+	ParamN       uint32
+	ParamH       uint32
+	ParamK       uint32
+	ParamW       uint32
+	Desc         [3]uint8
+}
+
+func verifDup(b []uint8) []uint8 {
+	c := make([]uint8, len(b))
+	copy(c, b)
+	return c
+}
+
+// VerifSnapshot returns a deep copy of the object's state.
+func (x *XMSS) VerifSnapshot() *VerifState {
+	s := &VerifState{
+		Height:       x.height,
+		HashFunction: x.hashFunction,
+		Seed:         verifDup(x.seed[:]),
+		SK:           verifDup(x.sk),
+		StackOffset:  x.bdsState.stackOffset,
+		Stack:        verifDup(x.bdsState.stack),
+		StackLevels:  verifDup(x.bdsState.stackLevels),
+		Auth:         verifDup(x.bdsState.auth),
+		Keep:         verifDup(x.bdsState.keep),
+		Retain:       verifDup(x.bdsState.retain),
+		NextLeaf:     x.bdsState.nextLeaf,
+		ParamN:       x.xmssParams.n,
+		ParamH:       x.xmssParams.h,
+		ParamK:       x.xmssParams.k,
+		ParamW:       x.xmssParams.wotsParams.w,
+		Desc:         x.desc.GetBytes(),
+	}
+	for _, t := range x.bdsState.treeHash {
+		s.TreeHash = append(s.TreeHash, VerifTreeHash{t.h, t.nextIdx, t.stackUsage, t.completed, verifDup(t.node)})
+	}
+	return s
+}
+
+// VerifClone returns an independent deep copy of the object.
+func (x *XMSS) VerifClone() *XMSS {
+	wp := *x.xmssParams.wotsParams
+	xp := *x.xmssParams
+	xp.wotsParams = &wp
+	d := *x.desc
+	b := &BDSState{
+		stack:       verifDup(x.bdsState.stack),
+		stackOffset: x.bdsState.stackOffset,
+		stackLevels: verifDup(x.bdsState.stackLevels),
+		auth:        verifDup(x.bdsState.auth),
+		keep:        verifDup(x.bdsState.keep),
+		retain:      verifDup(x.bdsState.retain),
+		nextLeaf:    x.bdsState.nextLeaf,
+	}
+	for _, t := range x.bdsState.treeHash {
+		b.treeHash = append(b.treeHash, &TreeHashInst{t.h, t.nextIdx, t.stackUsage, t.completed, verifDup(t.node)})
+	}
+	return &XMSS{&xp, x.hashFunction, x.height, verifDup(x.sk), x.seed, b, &d}
+}
+
+// VerifRootFromAuth evaluates an authentication path with the library's own
+// validateAuthPath and returns the root it leads to.
+func VerifRootFromAuth(hashFunction HashFunction, leaf []uint8, leafIdx uint32, authPath []uint8, h uint32, pubSeed []uint8) []uint8 {
+	n := WOTSParamN
+	root := make([]uint8, n)
+	var nodeAddr [8]uint32
+	nodeAddr[3] = 2
+	validateAuthPath(hashFunction, root, leaf, leafIdx, authPath, n, h, pubSeed, &nodeAddr)
+	return root
+}
